@@ -202,6 +202,7 @@ Fixpoint arun (ideal : bool) (a : list Z) (l : list sop) : list ob :=
 (* keys are small integers standing for distinct strings; the store is an association list *)
 Inductive mop :=
 | MJGet (k : Z) | MJSet (k : Z) (v : src) | MJDel (k : Z) | MJHas (k : Z) | MJKeys
+| MJKeyset | MJForIn | MJSum     (* Object.keys / for-in as the set of keys (bit k for key k); sum of m[k] over for-in *)
 | MGGet (k : Z) | MGSet (k : Z) (v : Z) | MGDel (k : Z) | MGLen.
 
 Fixpoint m_get (m : list (Z * Z)) (k : Z) : option Z :=
@@ -227,6 +228,8 @@ Definition mstep (ideal : bool) (m : list (Z * Z)) (o : mop) : list (Z * Z) * ob
   | MJDel k => (m_del m k, o_bool true)
   | MJHas k => (m, o_bool (match m_get m k with Some _ => true | None => false end))
   | MJKeys | MGLen => (m, o_num (Z.of_nat (length m)))
+  | MJKeyset | MJForIn => (m, o_num (fold_right (fun kv acc => 2 ^ (fst kv) + acc) 0 m))
+  | MJSum => (m, o_num (fold_right (fun kv acc => snd kv + acc) 0 m))
   | MGSet k v => (m_set m k v, o_ok)
   | MGDel k => (m_del m k, o_ok)
   end.
